@@ -774,6 +774,85 @@ fn shuffle_moves(p: &Pos) -> Vec<Mv> {
     names.iter().filter_map(|n| legal.iter().find(|m| m.uci() == *n).copied()).collect()
 }
 
+/// One whole game on one engine instance: `position <base> moves ...` grows by the engine's own
+/// best move, `go depth d` at every ply, every answer judged against the reference with the
+/// repetition rule over the real game history. `script`: Some(moves) replays a recorded game and
+/// judges only its last search. Returns (plies played, searches where the rule changed the value).
+fn c10_game(rep: &Reporter, base: &Pos, d: usize, max_plies: usize, script: Option<&[String]>) -> (u64, u64) {
+    let draw = verif::draw_score();
+    let contempt = verif::contempt();
+    let mut sess = Session::new(false);
+    let mut line: Vec<Pos> = vec![base.clone()];
+    let mut moves: Vec<String> = Vec::new();
+    let (mut plies, mut mattered) = (0u64, 0u64);
+    let n = script.map_or(max_plies, |s| s.len() + 1);
+    for ply in 0..n {
+        let root = line.last().unwrap().clone();
+        // the game is over, or about to be by a rule judged elsewhere (fifty moves: family (b))
+        if !root.has_legal_move() || RefSearch::occurrences(&line) >= 3 || root.half as usize + d + 8 >= verif::max_half_moves() as usize {
+            break;
+        }
+        let out = search_depth(&mut sess, base, &moves, d, "");
+        plies += 1;
+        let judged = script.map_or(true, |s| ply == s.len());
+        let case = |extra: Value| json!({"kind": "game", "base": base.to_fen(), "history": moves, "depth": d, "detail": extra});
+        if let Some(pr) = &out.problem {
+            rep.report(format!("no_answer:{}", short(pr)), case(json!({"problem": pr})));
+            break;
+        }
+        let best = match out.best.as_ref().and_then(|b| root.find_legal_uci(b)) {
+            Some(m) => m,
+            None => {
+                rep.report("game_bestmove_illegal_or_null".to_string(), case(json!({"bestmove": out.best})));
+                break;
+            }
+        };
+        if judged {
+            let eval = |q: &Pos, l: bool| eval_hook(q, l);
+            let mut wants = Vec::new();
+            for c in [contempt, -contempt] {
+                let mut rs = RefSearch::new(&eval);
+                rs.history = line[..line.len() - 1].to_vec();
+                rs.repetition = Some(RepRule { draw, contempt: c });
+                wants.push(rs.root_value_ab_rep(&root, d));
+            }
+            let mut rs0 = RefSearch::new(&eval);
+            let without_rule = rs0.root_ab(&root, d).0;
+            if without_rule != wants[0] {
+                mattered += 1;
+            }
+            let got = match out.score {
+                Some(Score::Centipawn { score }) => Some(score),
+                _ => None,
+            };
+            rep.sample(|| json!({"base": base.to_fen(), "game_so_far": moves, "go": format!("depth {}", d), "engine_score": score_json(&out.score), "reference_with_repetition_rule": wants, "reference_without": without_rule}));
+            let mate_expected = wants.iter().any(|w| verif::is_checkmate_value(*w));
+            if script.is_some() {
+                println!("ply {}: engine {:?} best {:?}; reference with rule {:?}, without {}", ply, out.score, out.best, wants, without_rule);
+            }
+            if !mate_expected && got != Some(wants[0]) && got != Some(wants[1]) {
+                let sig = if got == Some(without_rule) { "game:repetition_in_the_game_history_ignored" } else { "game:value_differs_from_reference_with_repetition_rule" };
+                rep.report(format!("{}:depth{}", sig, d), case(json!({"expected": wants, "reference_without_repetition_rule": without_rule, "actual": score_json(&out.score)})));
+                if script.is_none() {
+                    break;
+                }
+            }
+        }
+        let next = match script {
+            Some(s) if ply < s.len() => match root.find_legal_uci(&s[ply]) {
+                Some(m) => m,
+                None => break,
+            },
+            Some(_) => break,
+            None => best,
+        };
+        moves.push(next.uci());
+        line.push(root.make(&next));
+    }
+    sess.quit();
+    (plies, mattered)
+}
+
 pub fn run_c10(tier: Tier) -> i32 {
     let started = Instant::now();
     let rep = Reporter::new("C10");
@@ -1066,6 +1145,19 @@ pub fn run_c10(tier: Tier) -> i32 {
         rep.machinery("vacuous: the repetition rule never changes the reference value in the cycle family");
     }
 
+    // ---- (a4) whole games on one engine: the repetition bookkeeping as a real game builds it
+    let t0 = Instant::now();
+    let game_bases = ["rnbqkbnr/pppppppp/8/8/8/8/PPPPPPPP/RNBQKBNR w KQkq - 0 1", "r3k2r/p1ppqpb1/bn2pnp1/3PN3/1p2P3/2N2Q1p/PPPBBPPP/R3K2R w KQkq - 0 1", "8/8/8/4k3/8/8/3Q4/4K3 w - - 0 1", "4k3/8/8/8/8/8/3r4/4K2R b K - 0 1", "6k1/5ppp/8/8/8/8/q4PPP/3Q2K1 w - - 0 30", "8/2p5/3p4/KP5r/1R3p1k/8/4P1P1/8 w - - 0 1", "r4rk1/1pp1qppp/p1np1n2/2b1p1B1/2B1P1b1/P1NP1N2/1PP1QPPP/R4RK1 w - - 0 10", "8/8/4k3/8/8/3P4/8/4K3 w - - 0 1"];
+    let game_jobs: Vec<(Pos, usize)> = game_bases.iter().flat_map(|f| [1usize, 2, 3].into_iter().map(move |d| (Pos::from_fen(f).unwrap(), d))).filter(|(p, d)| tier == Tier::Thorough || *d < 3 || p.piece_count() <= 8).collect();
+    let game_plies = AtomicU64::new(0);
+    let game_matter = AtomicU64::new(0);
+    par_map_fine(&game_jobs, |(base, d)| {
+        let (n, m) = c10_game(&rep, base, *d, if tier == Tier::Quick { 120 } else { 400 }, None);
+        game_plies.fetch_add(n, Ordering::Relaxed);
+        game_matter.fetch_add(m, Ordering::Relaxed);
+    });
+    fams.push(json!({"family": "whole games played by the engine against itself on one instance, go depth 1/2/3 at every ply, value against the reference with the repetition rule over the real history", "games": game_jobs.len(), "searches_judged": game_plies.load(Ordering::Relaxed), "searches_where_the_repetition_rule_changes_the_reference_value": game_matter.load(Ordering::Relaxed), "secs": t0.elapsed().as_secs_f64()}));
+
     // ---- (b) fifty-move rule
     let t0 = Instant::now();
     let fifty_roots = ["8/8/8/4k3/8/8/3Q4/4K3 w - - 0 80", "8/8/8/4k3/8/8/3Q4/4K3 b - - 0 80", "8/8/8/4k3/8/8/3R4/4K3 w - - 0 80", "8/8/4k3/8/8/3P4/8/4K3 w - - 0 80", "8/8/4k3/8/8/3P4/8/4K3 b - - 0 80", "4k3/3q4/8/8/4K3/8/8/8 b - - 0 80", "4k3/3r4/8/8/4K3/8/8/8 w - - 0 80", "r3k3/8/8/8/8/8/4P3/4K2R w K - 0 80"];
@@ -1271,6 +1363,10 @@ pub fn replay(id: &str, case: &Value) -> i32 {
             if !ok {
                 rep.report("value_differs_from_reference_with_repetition_rule".to_string(), json!({"kind": "history", "base": p.to_fen(), "history": moves, "searchmove": sm, "depth": depth}));
             }
+        }
+        ("C10", "game") => {
+            let moves: Vec<String> = case["history"].as_array().map(|a| a.iter().map(|v| v.as_str().unwrap_or("").to_string()).collect()).unwrap_or_default();
+            c10_game(&rep, &p, depth, 0, Some(&moves));
         }
         ("C10", "cycle") => {
             let moves: Vec<String> = case["history"].as_array().map(|a| a.iter().map(|v| v.as_str().unwrap_or("").to_string()).collect()).unwrap_or_default();
